@@ -127,8 +127,8 @@ Ltac muladd64_step :=
     Hth2 : ?th2 = u64 (?th + u64 (b2z (?n0 <? ?tl))), H1 : ?n1 = u64 (?c1 + ?th2), H2 : ?n2 = u64 (?c2 + u64 (b2z (?n1 <? ?th2))) |- _ =>
     let p' := norm_prod p in
     let A := fresh "A" in let B := fresh "B" in let C := fresh "C" in let D := fresh "D" in let S := fresh "S" in
-    assert (A : 0 <= c0 < 2^64) by lia; assert (B : 0 <= c1 < 2^64) by lia; assert (C : 0 <= c2 < 2^63) by lia;
-    assert (D : 0 <= p' <= (2^64 - 1) * (2^64 - 1)) by lia;
+    assert (A : 0 <= c0 < 2^64) by (timeout 120 lia); assert (B : 0 <= c1 < 2^64) by (timeout 120 lia); assert (C : 0 <= c2 < 2^63) by (timeout 120 lia);
+    assert (D : 0 <= p' <= (2^64 - 1) * (2^64 - 1)) by (timeout 120 lia);
     pose proof (muladd64_eq c0 c1 c2 p' t th tl n0 th2 n1 n2 Ht Hth Htl H0 Hth2 H1 H2 A B C D) as S;
     clear A B C D Ht Hth Htl H0 Hth2 H1 H2;
     pose proof (proj1 S); pose proof (proj1 (proj2 S)); pose proof (proj1 (proj2 (proj2 S))); pose proof (proj2 (proj2 (proj2 S))); clear S
@@ -141,8 +141,8 @@ Ltac muladd_fast_step :=
     Hth2 : ?th2 = u64 (?th + u64 (b2z (?n0 <? ?tl))), H1 : ?n1 = u64 (?c1 + ?th2) |- _ =>
     let p' := norm_prod p in
     let A := fresh "A" in let B := fresh "B" in let C := fresh "C" in let D := fresh "D" in let S := fresh "S" in
-    assert (A : 0 <= c0 < 2^64) by lia; assert (B : 0 <= c1) by lia;
-    assert (C : 0 <= p' <= (2^64 - 1) * (2^64 - 1)) by lia; assert (D : c0 + c1 * 2^64 + p' < 2^128) by lia;
+    assert (A : 0 <= c0 < 2^64) by (timeout 120 lia); assert (B : 0 <= c1) by (timeout 120 lia);
+    assert (C : 0 <= p' <= (2^64 - 1) * (2^64 - 1)) by (timeout 120 lia); assert (D : c0 + c1 * 2^64 + p' < 2^128) by (timeout 120 lia);
     pose proof (muladd_fast_eq c0 c1 p' t th tl n0 th2 n1 Ht Hth Htl H0 Hth2 H1 A B C D) as S;
     clear A B C D Ht Hth Htl H0 Hth2 H1;
     pose proof (proj1 S); pose proof (proj1 (proj2 S)); pose proof (proj2 (proj2 S)); clear S
@@ -153,8 +153,8 @@ Ltac sumadd_step :=
   lazymatch goal with
   | H0 : ?n0 = u64 (?c0 + ?a), Ho : ?over = u32 (b2z (?n0 <? ?a)), H1 : ?n1 = u64 (?c1 + ?over), H2 : ?n2 = u64 (?c2 + u64 (b2z (?n1 <? ?over))) |- _ =>
     let A := fresh "A" in let B := fresh "B" in let C := fresh "C" in let D := fresh "D" in let S := fresh "S" in
-    assert (A : 0 <= c0 < 2^64) by lia; assert (B : 0 <= c1 < 2^64) by lia; assert (C : 0 <= c2 < 2^63) by lia;
-    assert (D : 0 <= a < 2^64) by lia;
+    assert (A : 0 <= c0 < 2^64) by (timeout 120 lia); assert (B : 0 <= c1 < 2^64) by (timeout 120 lia); assert (C : 0 <= c2 < 2^63) by (timeout 120 lia);
+    assert (D : 0 <= a < 2^64) by (timeout 120 lia);
     pose proof (sumadd_eq c0 c1 c2 a n0 over n1 n2 H0 Ho H1 H2 A B C D) as S;
     clear A B C D H0 Ho H1 H2;
     pose proof (proj1 S); pose proof (proj1 (proj2 S)); pose proof (proj1 (proj2 (proj2 S))); pose proof (proj2 (proj2 (proj2 S))); clear S
@@ -165,7 +165,7 @@ Ltac sumadd_fast_step :=
   lazymatch goal with
   | H0 : ?n0 = u64 (?c0 + ?a), H1 : ?n1 = u64 (?c1 + u64 (b2z (?n0 <? ?a))) |- _ =>
     let A := fresh "A" in let B := fresh "B" in let D := fresh "D" in let S := fresh "S" in
-    assert (A : 0 <= c0 < 2^64) by lia; assert (B : 0 <= c1 < 2^64 - 1) by lia; assert (D : 0 <= a < 2^64) by lia;
+    assert (A : 0 <= c0 < 2^64) by (timeout 120 lia); assert (B : 0 <= c1 < 2^64 - 1) by (timeout 120 lia); assert (D : 0 <= a < 2^64) by (timeout 120 lia);
     pose proof (sumadd_fast_eq c0 c1 a n0 n1 H0 H1 A B D) as S;
     clear A B D H0 H1;
     pose proof (proj1 S); pose proof (proj1 (proj2 S)); pose proof (proj2 (proj2 S)); clear S
@@ -173,7 +173,7 @@ Ltac sumadd_fast_step :=
 
 (* any other assignment: remove the wraps that provably do nothing from its equation *)
 Ltac wrap_eq H :=
-  norm_in H; unfold u128, u64, u32 in H; repeat (rewrite Z.mod_small in H by lia).
+  norm_in H; unfold u128, u64, u32 in H; repeat (rewrite Z.mod_small in H by (timeout 300 lia)).
 Ltac u128_step :=
   lazymatch goal with |- bind (u128 _) _ => idtac end; bintro;
   lazymatch goal with H : _ = u128 _ |- _ => wrap_eq H end.
@@ -183,7 +183,7 @@ Ltac split_step :=
   lazymatch goal with Hr : ?r = u64 ?v, Hc : ?c = ?v / 2^64 |- _ =>
     let S := fresh "S" in pose proof (split64_eq v r c Hr Hc) as S; clear Hr Hc;
     pose proof (proj1 S); pose proof (proj2 S); clear S;
-    let P := fresh "P" in assert (P : 0 <= c) by lia end.
+    let P := fresh "P" in assert (P : 0 <= c) by (timeout 120 lia) end.
 Ltac trunc_step :=
   lazymatch goal with |- bind (u64 ?v) _ => is_var v end; bintro;
   lazymatch goal with H : ?x = u64 ?v |- _ =>
@@ -191,27 +191,27 @@ Ltac trunc_step :=
     let S := fresh "S" in pose proof (trunc64_eq v x H) as S; clear H;
     remember (v / 2^64) as cx eqn:E;
     pose proof (proj1 S); pose proof (proj2 S); clear S;
-    let P := fresh "P" in assert (P : 0 <= cx) by lia; clear E end.
+    let P := fresh "P" in assert (P : 0 <= cx) by (timeout 120 lia); clear E end.
 (* p4 = c0 + m6: a sum of two carry counts *)
 Ltac small_sum_step :=
   lazymatch goal with |- bind (u32 (u64 (_ + _))) _ => idtac end; bintro;
   lazymatch goal with H : ?x = u32 (u64 (?a + ?b)) |- _ =>
-    let B := fresh "B" in assert (B : 0 <= a + b <= 12) by lia;
-    unfold u32, u64 in H; rewrite (Z.mod_small (a + b) (2^64)) in H by lia; rewrite (Z.mod_small (a + b) (2^32)) in H by lia end.
+    let B := fresh "B" in assert (B : 0 <= a + b <= 12) by (timeout 120 lia);
+    unfold u32, u64 in H; rewrite (Z.mod_small (a + b) (2^64)) in H by (timeout 120 lia); rewrite (Z.mod_small (a + b) (2^32)) in H by (timeout 120 lia) end.
 Ltac u32_small_step :=
   lazymatch goal with |- bind (u32 ?v) _ => is_var v end; bintro;
-  lazymatch goal with H : ?x = u32 ?v |- _ => unfold u32 in H; rewrite (Z.mod_small v (2^32)) in H by lia end.
+  lazymatch goal with H : ?x = u32 ?v |- _ => unfold u32 in H; rewrite (Z.mod_small v (2^32)) in H by (timeout 120 lia) end.
 Definition hidden (P : Prop) : Prop := P.
 (* a use of the (separately proved) range test: replace it by its specification *)
 Ltac overflow_step :=
   lazymatch goal with |- bind ?e _ => lazymatch e with context[scalar_check_overflow _ _ _ _] => idtac end end; bintro;
   lazymatch goal with E : context[scalar_check_overflow ?a ?b ?c ?d] |- _ =>
      let H := fresh "CO" in let co := fresh "co" in let Hb := fresh "COb" in let Eco := fresh "Eco" in
-     pose proof (scalar_check_overflow_correct a b c d ltac:(lia) ltac:(lia) ltac:(lia) ltac:(lia)) as H;
+     pose proof (scalar_check_overflow_correct a b c d ltac:(timeout 120 lia) ltac:(timeout 120 lia) ltac:(timeout 120 lia) ltac:(timeout 120 lia)) as H;
      remember (scalar_check_overflow a b c d) as co eqn:Eco; clear Eco;
      assert (Hb : 0 <= co <= 1) by (rewrite H; destruct (N256 <=? val4 a b c d); lia);
      change (hidden (co = (if N256 <=? val4 a b c d then 1 else 0))) in H;
-     unfold u128, u64, u32 in E; repeat (rewrite Z.mod_small in E by lia)
+     unfold u128, u64, u32 in E; repeat (rewrite Z.mod_small in E by (timeout 300 lia))
   end.
 
 Theorem scalar_reduce_512_correct l0 l1 l2 l3 l4 l5 l6 l7 :
@@ -227,15 +227,15 @@ Proof.
   repeat first [ muladd64_step | muladd_fast_step | sumadd_step | sumadd_fast_step | keep_step ].
   u32_small_step.
   assert (SM : m0 + m1 * 2^64 + m2 * 2^128 + m3 * 2^192 + m4 * 2^256 + m5 * 2^320 + m6 * 2^384 =
-               l0 + l1 * 2^64 + l2 * 2^128 + l3 * 2^192 + (l4 + l5 * 2^64 + l6 * 2^128 + l7 * 2^192) * (4624529908474429119 + 4994812053365940164 * 2^64 + 2^128)) by lia.
-  assert (Bm : (0 <= m0 < 2^64 /\ 0 <= m1 < 2^64 /\ 0 <= m2 < 2^64 /\ 0 <= m3 < 2^64) /\ (0 <= m4 < 2^64 /\ 0 <= m5 < 2^64 /\ 0 <= m6 <= 3)) by lia.
+               l0 + l1 * 2^64 + l2 * 2^128 + l3 * 2^192 + (l4 + l5 * 2^64 + l6 * 2^128 + l7 * 2^192) * (4624529908474429119 + 4994812053365940164 * 2^64 + 2^128)) by (timeout 600 lia).
+  assert (Bm : (0 <= m0 < 2^64 /\ 0 <= m1 < 2^64 /\ 0 <= m2 < 2^64 /\ 0 <= m3 < 2^64) /\ (0 <= m4 < 2^64 /\ 0 <= m5 < 2^64 /\ 0 <= m6 <= 3)) by (timeout 600 lia).
   clear - SM Bm H0 H1 H2 H3 H4 H5 H6 H7.
   (* stage 2: 385 -> 258 bits *)
   repeat first [ muladd64_step | muladd_fast_step | sumadd_step | sumadd_fast_step | keep_step ].
   small_sum_step.
   assert (SP : p0 + p1 * 2^64 + p2 * 2^128 + p3 * 2^192 + p4 * 2^256 =
-               m0 + m1 * 2^64 + m2 * 2^128 + m3 * 2^192 + (m4 + m5 * 2^64 + m6 * 2^128) * (4624529908474429119 + 4994812053365940164 * 2^64 + 2^128)) by lia.
-  assert (Bp : (0 <= p0 < 2^64 /\ 0 <= p1 < 2^64 /\ 0 <= p2 < 2^64 /\ 0 <= p3 < 2^64) /\ 0 <= p4 <= 12) by lia.
+               m0 + m1 * 2^64 + m2 * 2^128 + m3 * 2^192 + (m4 + m5 * 2^64 + m6 * 2^128) * (4624529908474429119 + 4994812053365940164 * 2^64 + 2^128)) by (timeout 600 lia).
+  assert (Bp : (0 <= p0 < 2^64 /\ 0 <= p1 < 2^64 /\ 0 <= p2 < 2^64 /\ 0 <= p3 < 2^64) /\ 0 <= p4 <= 12) by (timeout 600 lia).
   clear - SM Bm SP Bp H0 H1 H2 H3 H4 H5 H6 H7.
   (* stage 3: 258 -> 256 bits, and the final conditional subtraction of n *)
   repeat first [ split_step | keep_step | overflow_step | u128_step | trunc_step ].
@@ -245,14 +245,14 @@ Proof.
   all: unfold val4, val8, N256 in *.
   (* value after the third fold, and after the conditional addition of N_C *)
   all: assert (A1 : r_d0 + r_d1 * 2^64 + r_d2 * 2^128 + r_d3 * 2^192 + c * 2^256 =
-                    p0 + p1 * 2^64 + p2 * 2^128 + p3 * 2^192 + p4 * (4624529908474429119 + 4994812053365940164 * 2^64 + 2^128)) by lia.
+                    p0 + p1 * 2^64 + p2 * 2^128 + p3 * 2^192 + p4 * (4624529908474429119 + 4994812053365940164 * 2^64 + 2^128)) by (timeout 600 lia).
   all: assert (A2 : r_d4 + r_d5 * 2^64 + r_d6 * 2^128 + r_d7 * 2^192 + ctop * 2^256 =
-                    r_d0 + r_d1 * 2^64 + r_d2 * 2^128 + r_d3 * 2^192 + scalar_reduce1_overflow * (4624529908474429119 + 4994812053365940164 * 2^64 + 2^128)) by lia.
-  all: assert (A3 : c = 0 \/ c = 1) by lia.
+                    r_d0 + r_d1 * 2^64 + r_d2 * 2^128 + r_d3 * 2^192 + scalar_reduce1_overflow * (4624529908474429119 + 4994812053365940164 * 2^64 + 2^128)) by (timeout 600 lia).
+  all: assert (A3 : c = 0 \/ c = 1) by (timeout 600 lia).
   all: split; [lia|].
-  all: assert (RB : 0 <= r_d4 + r_d5 * 2^64 + r_d6 * 2^128 + r_d7 * 2^192 < 2^256) by lia.
-  all: assert (RR : 0 <= r_d0 + r_d1 * 2^64 + r_d2 * 2^128 + r_d3 * 2^192 < 2^256) by lia.
-  all: assert (PT : 0 <= ctop) by lia.
+  all: assert (RB : 0 <= r_d4 + r_d5 * 2^64 + r_d6 * 2^128 + r_d7 * 2^192 < 2^256) by (timeout 600 lia).
+  all: assert (RR : 0 <= r_d0 + r_d1 * 2^64 + r_d2 * 2^128 + r_d3 * 2^192 < 2^256) by (timeout 600 lia).
+  all: assert (PT : 0 <= ctop) by (timeout 600 lia).
   all: match goal with Q : _ = _ + ?co', CO' : ?co' = _ |- _ => rename Q into E5 end.
   all: clear - SM Bm SP Bp A1 A2 A3 CO E5 Hv RB RR PT H0 H1 H2 H3 H4 H5 H6 H7.
   all: apply (Z.mod_unique_pos _ _ ((l4 + l5 * 2^64 + l6 * 2^128 + l7 * 2^192) + (m4 + m5 * 2^64 + m6 * 2^128) + p4 + scalar_reduce1_overflow)).
